@@ -123,6 +123,27 @@ CLAIMED.update({
         note="Trusted: TLC, spec/IprRegions.tla, harness/regions.cxx. Owners the property does not prescribe (sub-regions, "
              "base lists, requires/where/declarator parameter regions, handler parameter regions) and the home region of an "
              "exception parameter are not observed."),
+    "C14": dict(
+        text="Two parts. (1) IprSeq.tla: positional access at 0..size+2 and SIZE_MAX, iteration and begin-to-end distance for a "
+             "sequence holding n appended elements; TLC prints the expected observation after each append and it is replayed on "
+             "all 25 sequence implementations/routes the library ships (every size 0..4 quick / 0..8 thorough); recorded runs "
+             "(also under ASan/UBSan) and Optional::get on empty and valid values go through the trace spec. (2) The IprMake "
+             "sweep restricted to refusals: every accessor of every factory-built node in every subset of its settable links "
+             "must be refused with std::logic_error while the link is unset.",
+        ref="DESIGN.md §3 C14", tech="TLA+ IprSeq + IprMake: expected outcomes from TLC replayed on every sequence implementation and every link state; trace validation under ASan/UBSan",
+        note="Trusted: TLC, spec/IprSeq.tla, the link columns of the node table, harness/seqs.cxx + make.cxx; undefined behaviour is "
+             "only visible as a sanitizer report or crash (terminal trace event). Declarations' checked links (home region, "
+             "linkage, lexical region) are exercised only through the statements and expressions of the node table."),
+    "C15": dict(
+        text="IprSeqTrace.tla states the defining equations: empty = (size = 0), begin/end/position and the helper size / "
+             "operator[] of Product, Sum, Expr_list, Scope, Parameter_list against positional access; try_block = (handlers # 0); "
+             "Udt scope/members, Block body, Template parameters/result, default_value = initializer, Type::linkage = "
+             "transfer().linkage, Scope::size; and for the six equality operators, eq[i][j] = (spelling i = spelling j) on all "
+             "pairs of six values with != its negation. The harness logs the derived result together with the primitives and TLC "
+             "evaluates the equation; sequence observations are also generated by TLC and replayed on all implementations.",
+        ref="DESIGN.md §3 C15", tech="TLA+ IprSeq: defining equations evaluated by TLC on recorded derived/primitive pairs + replayed sequence observations",
+        note="Trusted: TLC, spec/IprSeqTrace.tla, harness/seqs.cxx. Identity comparisons (same object returned) are computed by the "
+             "harness and logged as a boolean."),
     "C16": dict(
         text="IprSubst.tla: substitutions as partial functions. TLC enumerates all make/bind/apply sequences of length 4 "
              "(quick) / 5 (thorough) over 3 parameters from two parameter lists and 2 values; each is replayed and every "
